@@ -312,3 +312,23 @@ def compositions_do_not_depend_on_the_order_used_in_earlier_calls(S):
             return lambda names: [v for nm in names for v in vals[nm]]
 
         S.forall(f"call-{j + 1}-({order}):parts-evaluated-on-their-own-named-variables", o.f["_t"], lambda q, t=t, rin_of=rin_of: zreal(t.at(q)) == core.select_comp(q[1][0], 2, want(rin_of(q))))
+
+
+@scenario("C08", [MODEL + "._fix_points_order"] + [NETS[k][0] + ".forward" for k in NETS] + [M + "model.NormalizationLayer.forward"], configs=list(NETS) + ["NormalizationLayer"], bounded=BOUND + "; input space with ONE variable (x:2)")
+def model_over_a_single_variable_rejects_other_variables(S):
+    """a model whose input space has exactly one variable: points over that variable are accepted (row-wise), points
+    over a DIFFERENT variable of the same width are rejected -- never read as if they were the declared variable"""
+    I = S.I
+    x, y, u = S.new(RN, "x", 2), S.new(RN, "y", 2), S.new(RN, "u", 1)
+    if S.cfg == "NormalizationLayer":
+        dom = abstract_domain(S, "Dn", x)
+        dom.strict_box = True
+        net = S.new(M + "model.NormalizationLayer", dom.obj)
+    else:
+        cls, kw = NETS[S.cfg]
+        net = S.new(cls, x, u, **kw)
+    N = S.int("N", 1)
+    X = S.tensor("X", [N, 2])
+    ok = S.outcome(lambda: S.method(net, "forward", S.new(POINTS, X, x)))
+    S.ensure("points-over-the-declared-variable-are-accepted", ok[0] == "ok")
+    S.ensure_raises("points-over-another-variable-of-the-same-width-are-rejected", lambda: S.method(net, "forward", S.new(POINTS, X, y)), ["ValueError", "KeyError", "AssertionError", "RuntimeError"])
